@@ -120,12 +120,44 @@ def parseOp (w : List String) : Option (Op Nat Nat × String) :=
   | ["E"] => some (.each, "each")
   | ["A"] => some (.each, "each")
   | _ => none
+/-- the entries up to and including the first one that satisfies `p` (all of them when none does) -/
+def takeThrough (p : Nat × Nat → Bool) : List (Nat × Nat) → List (Nat × Nat)
+  | [] => []
+  | e :: es => if p e then [e] else e :: takeThrough p es
+/-- what `Each` sees in state `m` (the `each` observation of the model) -/
+def seen (m : M Nat Nat) : List (Nat × Nat) :=
+  match (m.step .each).2 with | .visit l => l | _ => []
+/-- Early-exit ops, derived from the model's `each` / `map` / `find` steps.
+`X n`: Each whose callback returns an error from its (n+1)-th call: the callback is called for the first
+n+1 entries of what `each` sees, the state is unchanged, `err` iff the (n+1)-th call happened.
+`N n`: Map(+1) likewise: a `map` step that changes the first n visited keys only.
+`W p`: Find with the calls of its callback: the `find` observation plus the visited entries up to and
+including the first match. -/
+def earlyExit (m : M Nat Nat) (w : List String) : Option (M Nat Nat × String) :=
+  let stop (n : Nat) (l : List (Nat × Nat)) := s!"{showKV (l.take (n + 1))} {if n < l.length then "err" else "nil"}"
+  match w with
+  | ["X", n] => some (m, s!"stop {stop n.toNat! (seen m)}")
+  | ["N", n] =>
+      let l := seen m
+      let ks := (l.take n.toNat!).map (·.1)
+      some ((m.step (.map (fun k v => if ks.contains k then v + 1 else v))).1, s!"mapstop {stop n.toNat! l}")
+  | ["W", p] =>
+      let calls := takeThrough (fun e => pred p.toNat! e.1 e.2) (seen m)
+      (match (m.step (.find (pred p.toNat!))).2 with
+       | .found (some e) => some (m, s!"find {e.1}={e.2} calls {showKV calls}")
+       | .found none => some (m, s!"find none calls {showKV calls}")
+       | _ => none)
+  | _ => none
 def handle (rest : String) : String :=
   let ops := (rest.splitOn ";").map (fun o => (o.trimAscii.toString.splitOn " ").filter (· ≠ ""))
   let rec go (m : M Nat Nat) (acc : List String) : List (List String) → String
     | [] => "|".intercalate (acc.reverse ++ [s!"final {showKV m.entries}", toString m.len])
     | w :: ws => match parseOp w with
-      | none => if w.isEmpty then go m acc ws else "bad-op"
+      | none =>
+        if w.isEmpty then go m acc ws else
+        (match earlyExit m w with
+         | some (m', o) => go m' (o :: acc) ws
+         | none => "bad-op")
       | some (op, tag) => let (m', o) := m.step op; go m' (showObs tag o :: acc) ws
   go M.empty [] ops
 end DOMap
